@@ -78,7 +78,7 @@ func genNames(t *rapid.T, fileSafe bool) []string {
 	var pool []string
 	for len(pool) < n {
 		var s string
-		k := rapid.IntRange(0, 99).Draw(t, "nameKind")
+		k := pct(t, "nameKind")
 		switch {
 		case k < 22:
 			s = rapid.SampledFrom(nameSimple).Draw(t, "simple")
@@ -108,6 +108,18 @@ func genNames(t *rapid.T, fileSafe bool) []string {
 	return pool
 }
 
+// pct draws an (almost) uniform number in 0..99. rapid's IntRange is deliberately biased towards small values,
+// which would turn "k < 5" into a 25 % choice; seven fair coins are not.
+func pct(t *rapid.T, label string) int {
+	v := 0
+	for i := 0; i < 7; i++ {
+		if rapid.Bool().Draw(t, label) {
+			v |= 1 << i
+		}
+	}
+	return v * 100 / 128
+}
+
 func pick(t *rapid.T, pool []string, label string) string {
 	return pool[rapid.IntRange(0, len(pool)-1).Draw(t, label)]
 }
@@ -125,26 +137,34 @@ func genStoreCase(t *rapid.T) *storeCase {
 	names := genNames(t, false)
 	fnames := genNames(t, true)
 	nOps := rapid.IntRange(6, pt.Scale(36, 60)).Draw(t, "nOps")
-	tn := func() int64 { return rapid.SampledFrom([]int64{0, 0, 1, 2}).Draw(t, "tenant") }
+	main := rapid.SampledFrom(tenants).Draw(t, "mainTenant")
+	tn := func() int64 {
+		if rapid.IntRange(0, 9).Draw(t, "onMain") < 6 {
+			return main
+		}
+		return rapid.SampledFrom(tenants).Draw(t, "tenant")
+	}
 	ref := func(l string) int { return rapid.IntRange(0, 7).Draw(t, l) }
 	for i := 0; i < nOps; i++ {
-		if rapid.IntRange(0, 99).Draw(t, "restart") < 6 {
+		if pct(t, "restart") < 6 {
 			cs.Ops = append(cs.Ops, storeOp{Op: "restart"})
 			continue
 		}
 		st := rapid.SampledFrom(cs.Stores).Draw(t, "store")
+		// the first third of a case mostly creates, so that later updates / renames / deletes find objects
+		early := i*3 < nOps && rapid.IntRange(0, 9).Draw(t, "early") < 7
 		var op storeOp
 		switch st {
 		case "usq":
-			op = genUsqOp(t, names)
+			op = genUsqOp(t, names, early)
 		case "dash":
-			op = genDashOp(t, names)
+			op = genDashOp(t, names, early)
 		case "alias":
-			op = genAliasOp(t, fnames)
+			op = genAliasOp(t, fnames, early)
 		case "lookup":
-			op = genLookupOp(t, fnames)
+			op = genLookupOp(t, fnames, early)
 		case "alert":
-			op = genAlertStoreOp(t, names)
+			op = genAlertStoreOp(t, names, early)
 		}
 		if st != "lookup" {
 			op.T = tn()
@@ -262,6 +282,40 @@ func canon(v interface{}) string {
 	return string(b)
 }
 
+// brief renders a value for a message: long strings are abbreviated.
+func brief(v interface{}) string {
+	var x interface{}
+	if json.Unmarshal([]byte(canon(v)), &x) != nil {
+		return canon(v)
+	}
+	var walk func(interface{}) interface{}
+	walk = func(y interface{}) interface{} {
+		switch z := y.(type) {
+		case string:
+			if len(z) > 48 {
+				return fmt.Sprintf("%s…(%d bytes)", z[:24], len(z))
+			}
+		case map[string]interface{}:
+			o := map[string]interface{}{}
+			for k, w := range z {
+				kk, _ := walk(k).(string)
+				o[kk] = walk(w)
+			}
+			return o
+		case []interface{}:
+			for i := range z {
+				z[i] = walk(z[i])
+			}
+		}
+		return y
+	}
+	s := canon(walk(x))
+	if len(s) > 900 {
+		s = s[:900] + "…"
+	}
+	return s
+}
+
 func short(s string) string {
 	if len(s) > 60 {
 		return fmt.Sprintf("%.40q…(%d bytes)", s, len(s))
@@ -358,13 +412,6 @@ func (d *storeDriver) noteRenameOrDelete() {
 	d.o.Count("acknowledged_renames_deletes", 1)
 }
 
-func describeOp(op *storeOp) string {
-	b, _ := json.Marshal(op)
-	s := string(b)
-	if len(s) > 300 {
-		s = s[:300] + "…"
-	}
-	return s
-}
+func describeOp(op *storeOp) string { return brief(op) }
 
 func TestC20Stores(t *testing.T) { pt.RunProp(t, "C20", genStoreCase, checkStores) }
